@@ -407,6 +407,8 @@ def jobs_for(prop, tier):
         return jobs_simplify(tier)
     if prop == 'C07':
         return [j for j in jobs_option_below(tier) if j[1][3] == 'combinations'] + jobs_combinations(tier)
+    if prop == 'C03':
+        return jobs_c03(tier) + jobs_option_reduce(tier)
     return {'C01': jobs_c01, 'C02': jobs_c02, 'C03': jobs_c03, 'C04': jobs_c04, 'C06': jobs_c06, 'C08': jobs_c08, 'C10': jobs_c10, 'C05': jobs_c05, 'C09': jobs_c09}.get(prop, lambda t: [])(tier)
 
 
@@ -1858,3 +1860,106 @@ def jobs_combinations(tier):
                 for rep in (False, True):
                     js.append((h_combinations, (cls, d, n, rep), 600))
     return js
+
+
+# ------------------------------------------------------------------------------------------------ C03: reduce_next through an option node
+@guard
+def h_option_reduce(pattern, parents_c, positions):
+    """IndexedOptionArray64::reduce_next at the leaf level: missing values are skipped - the content is handed exactly the valid entries in order,
+    each with the parent (group) of its position; for position-returning reducers (argmin / argmax) shifts[k] = number of missing entries before
+    valid entry k, so that positions can be reported within the group counting the skipped ones; the answer is returned unchanged"""
+    pattern = tuple(map(bool, pattern))
+    n = len(pattern)
+    nc = NodeCtx(['IA', 'RA', 'LOA', 'IDX', 'CNT', 'UTL', 'KD', 'IDS'], [], unwind=max(12, 3 * n + 10))
+    seen = []
+    RED = z3.Function('RED', z3.BitVecSort(64), z3.BitVecSort(64))
+
+    def s_reduce_next(eng, fr, ins, st, name, argv):
+        sret, selfp, reducer, negaxis, starts, shifts, parents, outlength, mask, keepdims = argv
+        nm, info = nc.content_info(selfp, st, eng)
+        seen.append(dict(pc=st.pc, info=info, negaxis=negaxis, starts=starts, parents=nc.index_terms(st.mem, parents, 'parents')[0],
+                         shifts=nc.index_terms(st.mem, shifts, 'shifts')[0], outlength=outlength))
+        k = z3.BitVec('k!', 64)
+        nc._ret(st, sret, nc.fresh_content(eng, st, outlength, z3.Lambda([k], RED(k)), derived='reduced'))
+        return None
+    nc.m.eng.stubs['vf$slot%d' % nc.slot('11reduce_nextERKNS_7ReducerEl')] = s_reduce_next
+    nc.m.eng.stubs['vf$slot%d' % nc.slot('12branch_depthEv')] = lambda eng, fr, ins, st, name, argv: [z3.BitVecVal(0, 8), BV(1)]
+    this, idx = build_option64(nc, pattern)
+    # reducer test double: only returns_positions() is consulted
+    from .mharness import module_of as _mo
+    rslots, rn = nodeh.vtable_slots(_mo('src/libawkward/Reducer.cpp'), 'N7awkward13ReducerArgmaxE')
+    kpos = [k for s_, k in rslots.items() if '17returns_positionsEv' in s_][0]
+    nc.m.record('rvt', {8 * j: (Ptr(('func', 'vf$r%d' % j), 0), 8) for j in range(rn)}, const=True)
+    nc.m.eng.stubs['vf$r%d' % kpos] = lambda eng, fr, ins, st, name, argv: z3.BitVecVal(1 if positions else 0, 1)
+    reducer = nc.m.record('reducer', {0: (Ptr('rvt', 0), 8)}, const=True)
+    G = max(parents_c) + 1 if parents_c else 1
+    parr = z3.K(z3.BitVecSort(64), BV(0))
+    for i, v in enumerate(parents_c):
+        parr = z3.Store(parr, BV(i), BV(v))
+    pdata = nc.m.array('parents0', ('i', 64), max(1, n), const=True, arr=parr)
+    sdata = nc.m.array('starts0', ('i', 64), G, const=True, arr=z3.K(z3.BitVecSort(64), BV(0)))
+    mk = lambda nm, data, ln: (lambda cells: (nc.index_cells(cells, 0, data, BV(0), BV(ln)), nc.m.record(nm, cells, const=True))[1])({})
+    parents, starts, shifts = mk('parents', pdata, n), mk('starts', sdata, G), mk('shifts', NULL, 0)
+    nc.m.record('ret', {})
+    cands = [f for mod_ in nc.m.eng.mods for f in mod_.func_src if f.startswith('_ZNK7awkward14IndexedArrayOfIlLb1EE11reduce_nextERKNS_7ReducerEl')]
+    out = nc.m.call(cands[0], [Ptr('ret', 0), this, reducer, BV(1), starts, shifts, parents, BV(G), z3.BitVecVal(0, 1), z3.BitVecVal(0, 1)])
+    obls = [('reduce_next does not raise', out.raised), ('the content is asked', z3.Not(z3.Or([ob['pc'] for ob in seen] + [z3.BoolVal(False)])))]
+    valid = [i for i, m_ in enumerate(pattern) if not m_]
+    for ob in seen:
+        g, info = ob['pc'], ob['info']
+        obls.append(('the content handed over holds exactly the valid entries', z3.And(g, info['length'] != len(valid))))
+        for k, i in enumerate(valid):
+            obls.append(('entry %d handed over is valid entry %d (position %d)' % (k, k, i), z3.And(g, z3.Select(info['atoms'], BV(k)) != idx[i])))
+        if len(ob['parents']) != len(valid):
+            obls.append(('one parent per valid entry', g))
+        else:
+            for k, i in enumerate(valid):
+                obls.append(('parent of valid entry %d is the group of its position' % k, z3.And(g, ob['parents'][k] != parents_c[i])))
+        if positions:
+            if len(ob['shifts']) != len(valid):
+                obls.append(('one shift per valid entry for a position-returning reducer', g))
+            else:
+                for k, i in enumerate(valid):
+                    obls.append(('shift of valid entry %d counts the missing entries before it' % k, z3.And(g, ob['shifts'][k] != sum(1 for j in range(i) if pattern[j]))))
+        else:
+            obls.append(('no shifts for a value-returning reducer', z3.And(g, z3.BoolVal(len(ob['shifts']) != 0))))
+        obls.append(('outlength and negaxis are passed on', z3.And(g, z3.Or(ob['outlength'] != G, ob['negaxis'] != 1))))
+    for g, res in nodeh.decode_cases(nc, out.mem, nc.m.cell('ret', 0)):
+        if res is None:
+            obls.append(('a result is returned', z3.And(g, z3.Not(out.raised))))
+        else:
+            obls += [(nm, z3.And(g, c)) for nm, c in compare(value(res), [Elem(RED(BV(j))) for j in range(G)])]
+
+    def replay(model, ent):
+        iv = [model.eval(x, model_completion=True).as_signed_long() for x in idx]
+        lc = max([model.eval(nc.lencontent, model_completion=True).as_signed_long(), 1] + [v + 1 for v in iv])
+        if lc > 60 or parents_c != sorted(parents_c):
+            return False, 'not replayable', {}
+        # groups as lists: ListOffsetArray64 over the option node, reduce along axis 1
+        offs_, acc = [0], 0
+        for gi in range(G):
+            acc += sum(1 for p in parents_c if p == gi); offs_.append(acc)
+        data = [(5 * k + 2) % 7 for k in range(lc)]
+        vals = [None if v < 0 else data[v] for v in iv]
+        groups = [vals[offs_[gi]:offs_[gi + 1]] for gi in range(G)]
+        prog = 'i64 %s option64 %s listoffset64 %s reduce %s 1 0 0' % (fullnative.ints(data), fullnative.ints(iv), fullnative.ints(offs_), 'argmax' if positions else 'sum')
+        if positions:
+            exp = []
+            for grp in groups:
+                best, bp = None, -1
+                for p_, x in enumerate(grp):
+                    if x is not None and (best is None or x > best):
+                        best, bp = x, p_
+                exp.append(bp)
+        else:
+            exp = [sum(x for x in grp if x is not None) for grp in groups]
+        return akrun_check(prog, exp, '%s(axis=1) over groups %s' % ('argmax' if positions else 'sum', groups))
+    return mdischarge(nc.m, 'IndexedOptionArray64::reduce_next pattern=%s parents=%s %s' % (''.join('N' if p else 'v' for p in pattern), parents_c, 'positions' if positions else 'values'), obls, [],
+                      replay=replay, prefer=[nc.lencontent <= 8], extra=dict(bounds='%d entries, missing pattern and parents concrete (case split), index values symbolic' % n))
+
+
+def jobs_option_reduce(tier):
+    cases = [((0, 1, 0), [0, 0, 0]), ((1, 0, 0, 1), [0, 0, 1, 1]), ((0, 0), [0, 1]), ((1, 1), [0, 0])]
+    if tier != 'quick':
+        cases += [((0, 1, 0, 1, 0), [0, 0, 1, 1, 1]), ((1, 0, 1), [0, 1, 1]), ((0, 0, 0), [0, 0, 0])]
+    return [(h_option_reduce, (p, par, pos), 600) for p, par in cases for pos in (False, True)]
